@@ -3,7 +3,7 @@
 (* code -> spec: every line of trace.ndjson is one execution of the real   *)
 (* DoUntilQuorum... recorded by harness/c11 TestRecord:                    *)
 (*   {id, cfg, steps: [obs, env, obs, env, ..., obs(end)]}                 *)
-(* env steps are the environment actions of QuorumRead (finish / tick /    *)
+(* env steps are the environment actions of QuorumRead (finish / adv /    *)
 (* cancel), an obs is what was observable once every goroutine was blocked *)
 (* (synctest.Wait): calls of f per instance, the call's return value,      *)
 (* cleanup invocations per result, cause class of each invoked context.    *)
@@ -23,7 +23,7 @@ Traces == ndJsonDeserialize("trace.ndjson")
 T == Traces[tr]
 
 CfgOf(j) == [n |-> j.n, zone |-> j.zone, nz |-> j.nz, mode |-> j.mode, tol |-> j.tol,
-             minimize |-> j.minimize, hedge |-> j.hedge, terminal |-> j.terminal, nocancel |-> j.nocancel]
+             minimize |-> j.minimize, hedge |-> j.hedge, pred |-> j.pred, nocancel |-> j.nocancel]
 
 \* a supplied ZoneSorter fixes the release order of the held-back zones
 SorterOK(j, p) ==
@@ -57,7 +57,7 @@ TNext ==
            /\ l' = l + 1 /\ UNCHANGED vars
         \/ /\ e.a = "obs" /\ IntNext /\ l' = l
         \/ /\ e.a = "finish" /\ Finish(e.i, e.o) /\ l' = l + 1
-        \/ /\ e.a = "tick" /\ HedgeTick /\ l' = l + 1
+        \/ /\ e.a = "adv" /\ Advance /\ l' = l + 1
         \/ /\ e.a = "cancel" /\ ParentCancel /\ l' = l + 1
 
 Accepted == l = Len(T.steps) + 1
